@@ -28,7 +28,8 @@ class Model:
             for k, v in patches.items():
                 if k in self.shapes and v.get("type") == "structure":
                     for mn, mv in v.get("members", {}).items():
-                        self.shapes[k].setdefault("members", {})[mn] = mv
+                        # MinIO extensions are generated only under the `minio` cargo feature: not part of the
+                        # default build this oracle describes
                         self.minio_members.add((k, mn))
                 elif k not in self.shapes:
                     self.shapes[k] = v
